@@ -32,7 +32,10 @@ def _pair_gas(nvel):
     ln6 = st.one_of(gen.f(-6 * math.log(10), 6 * math.log(10)), gen.f(-1, 1), st.just(0.0))
     machs = st.lists(_mach(), min_size=nvel, max_size=nvel)
     kind = st.sampled_from(["general", "general", "general", "equal", "rest", "sonic", "mirror", "super+", "super-", "super+", "super-"])
-    return st.tuples(ln12, ln12, machs, ln6, ln6, machs, kind, gen.f(1.05, 3.0), gen.f(1.05, 3.0)).map(list)
+    # supercritical pairs: Mach/Froude from just above 1 to hypersonic (log-uniform 1.05..100): with large density AND pressure ratios the Roe average
+    # then lies far from both states, which is where a wrong averaging weight changes the sign of a wave-speed bound
+    sup = st.one_of(gen.f(1.05, 3.0), st.builds(lambda e: float(1.05 * 10.0 ** e), gen.f(0.0, 2.0)))
+    return st.tuples(ln12, ln12, machs, ln6, ln6, machs, kind, sup, sup).map(list)
 
 
 def _expand_gas(p, wavespeed):
